@@ -847,9 +847,14 @@ class UniformTime(np.ndarray, TimeInterface):
         return self
 
     def __idiv__(self, val):
-        np.ndarray.__idiv__(self, val)
-        self.sampling_interval /= val
-        self.sampling_rate = Frequency(self.sampling_rate * val)
+        # Times are whole numbers of the base unit: division is allowed when
+        # it leaves them whole (and hence uniform)
+        if (val == 0 or int(self.t0) % val or
+            int(self.sampling_interval) % val):
+            raise ValueError('Division by %s would break uniformity' % val)
+        np.ndarray.__ifloordiv__(self, val)
+        self._set_sampling(int(self.t0) // val,
+                           int(self.sampling_interval) // val)
         return self
 
     __itruediv__ =  __idiv__ # for py3k
